@@ -208,3 +208,12 @@ Definition dump_transform (key i : int) :=
   let '(t, p) := tr_case key i in
   (map bits_of [x_scale t; xy_scale t; yx_scale t; y_scale t; x_offset t; y_offset t; fst p; snd p],
    dump_pt (ftransform t p), dump_pt (fkurbo_apply (to_kurbo float t) p)).
+
+(** ---------- the property's predicate on an implementation path (given as a dump) ---------- *)
+Definition dump_eqb (a b : Z * list (Z * list Z)) : bool :=
+  Z.eqb (fst a) (fst b) &&
+  list_eqb (fun x y => Z.eqb (fst x) (fst y) && list_eqb Z.eqb (snd x) (snd y)) (snd a) (snd b).
+(** the contour is legal and the path is one of the outlines the specification allows *)
+Definition outline_ok (c : list (point fpt)) (impl : Z * list (Z * list Z)) : bool :=
+  legalb (types fpt c) &&
+  existsb (fun path => dump_eqb (dump_result (Ok path)) impl) (valid_outlines fpt fmid c).
